@@ -552,10 +552,24 @@ class IMAPClient:
                         )
                         self.ibuffer = []
                         self.ibuffer_size = 0
-                        # Drain the line terminator that follows the
-                        # literal declaration so we stay in sync.
+
+                        # NOTE: The line terminator after the literal
+                        #       declaration has been read already. A client
+                        #       that sent a synchronizing literal is waiting
+                        #       for our go-ahead and has sent nothing more. A
+                        #       non-synchronizing one (`{n+}`) is sending its
+                        #       `n` octets regardless: skip exactly those so
+                        #       that they are not taken for commands.
                         #
-                        await self.reader.readuntil(self.LINE_TERMINATOR)
+                        if m.group(2):
+                            remaining = literal_str_length
+                            while remaining > 0:
+                                skipped = await self.reader.read(
+                                    min(remaining, self.stream_buffer_size)
+                                )
+                                if not skipped:
+                                    break
+                                remaining -= len(skipped)
                         continue
 
                     # If this is a synchronizing string literal (does not have
